@@ -44,6 +44,7 @@ func (vc *VC) markEscaped(st *State, v Val) {
 	}
 	seenT := map[*Term]bool{}
 	seenC := map[int]bool{}
+	var pending []Val
 	var term func(t *Term)
 	term = func(t *Term) {
 		if t == nil || seenT[t] {
@@ -52,6 +53,10 @@ func (vc *VC) markEscaped(st *State, v Val) {
 		seenT[t] = true
 		if _, ok := vc.localObjs[t]; ok {
 			delete(vc.localObjs, t)
+			if held := vc.heldBy[t]; len(held) > 0 {
+				delete(vc.heldBy, t)
+				pending = append(pending, held...)
+			}
 			if os.Getenv("VERIF_DEBUG_ESC") != "" {
 				_, f1, l1, _ := runtime.Caller(3)
 				_, f2, l2, _ := runtime.Caller(4)
@@ -122,6 +127,11 @@ func (vc *VC) markEscaped(st *State, v Val) {
 		}
 	}
 	val(v)
+	for len(pending) > 0 {
+		x := pending[len(pending)-1]
+		pending = pending[:len(pending)-1]
+		val(x)
+	}
 }
 
 // restoreLocals puts back, after key `name` was havocked, the rows of the caller's unescaped objects.
